@@ -127,6 +127,10 @@ class PathV:
             if st.branch(z3.Contains(self.last, z3.StringVal('/')), 'tail-has-several-components'):
                 raise Unsupported('Path.name of a path whose appended tail contains "/"')
             return FileNameS(self.last, z3.SubString(self.last, 0, z3.Length(self.last) - n), self.known_suffix[1:])
+        if name == 'name':
+            used(it, FSAX + 'Path.name is the last component')
+            idx = z3.LastIndexOf(self.s, z3.StringVal('/'))
+            return SymS(z3.SubString(self.s, idx + 1, z3.Length(self.s) - idx - 1))
         if name == 'suffix' and self.known_suffix is not None:
             used(it, FSAX + 'Path.suffix of a name built as <prefix> + ".ext" with a dot-free constant ext is ".ext" when the prefix '
                         'is not empty, and "" when it is (a name that is only ".ext" is a dot-file without suffix) (string lemma)')
